@@ -113,6 +113,38 @@ PLAN = {
             {"run": "TestC13_Analyzer", "checks": 50000, "shards": 4, "timeout": 3000},
         ],
     },
+    "C14": {
+        "quick": [
+            {"run": "TestC14_Query", "checks": 40000},
+            {"run": "TestC14_Limit", "checks": 5000},
+        ],
+        "thorough": [
+            {"run": "TestC14_Query", "checks": 2000000, "shards": 14, "timeout": 3000},
+            {"run": "TestC14_Limit", "checks": 200000, "shards": 2, "timeout": 3000},
+        ],
+    },
+    "C16": {
+        "quick": [
+            {"run": "TestC16_Log", "checks": 3000},
+            {"run": "TestC16_File", "checks": 20000},
+        ],
+        "thorough": [
+            {"run": "TestC16_Log", "checks": 150000, "shards": 10, "timeout": 3000},
+            {"run": "TestC16_File", "checks": 1000000, "shards": 6, "timeout": 3000},
+        ],
+    },
+    "C18": {
+        "quick": [
+            {"run": "TestC18_Identity", "checks": 15000},
+            {"run": "TestC18_Monitor", "checks": 5000},
+            {"run": "TestC18_Concurrent", "checks": 150, "race": True},
+        ],
+        "thorough": [
+            {"run": "TestC18_Identity", "checks": 800000, "shards": 10, "timeout": 3000},
+            {"run": "TestC18_Monitor", "checks": 200000, "shards": 4, "timeout": 3000},
+            {"run": "TestC18_Concurrent", "checks": 2000, "race": True, "shards": 2, "timeout": 3000},
+        ],
+    },
     "C20": {
         "wtf": True,
         "quick": [
